@@ -186,6 +186,13 @@ func (ipv6 *IPv6) SerializeTo(b gopacket.SerializeBuffer, opts gopacket.Serializ
 			if err != nil {
 				return err
 			}
+			// keep the layer in step with the bytes, as for the other lengths FixLengths computes
+			for _, t := range ipv6.HopByHop.Options {
+				if t.OptionType == IPv6HopByHopOptionJumbogram {
+					t.SetJumboLength(uint32(pLen))
+					break
+				}
+			}
 		}
 	}
 
